@@ -34,7 +34,9 @@ package ice
 //@ func (*controlledSelector).shouldAcceptNomination
 //@   props C20
 //@   modifies s.lastNomination
-//@   ensures no-value-accepts: nominationValue == nil ==> result && s.lastNomination == old(s.lastNomination)
+//@   ensures accepted-only-if-greater-than-every-value-accepted-before: result && old(s.lastNomination) != nil ==> nominationValue != nil && *nominationValue > old(*s.lastNomination)
+//@   ensures plain-nomination-accepted-while-no-value-was-accepted: nominationValue == nil && old(s.lastNomination) == nil ==> result
+//@   ensures plain-nomination-leaves-the-accepted-value: nominationValue == nil ==> s.lastNomination == old(s.lastNomination)
 //@   ensures first-value-accepts: nominationValue != nil && old(s.lastNomination) == nil ==> result
 //@   ensures strictly-greater: nominationValue != nil && old(s.lastNomination) != nil ==> result == (*nominationValue > old(*s.lastNomination))
 //@   ensures remembers-accepted: result && nominationValue != nil ==> s.lastNomination == nominationValue
@@ -100,6 +102,7 @@ package ice
 //@   site store state#1 assert C03 succeeded-only-after-matched-transaction: s.agent.gTxOK && s.agent.gSymOK && object == pair && pair != nil && value == pairSucceeded
 //@   site call setSelectedPair#0 assert C03 selects-only-nominated-valid: s.agent.gTxOK && s.agent.gSymOK && pair.nominateOnBindingSuccess && arg1 == pair && pair.state == pairSucceeded
 //@   site call setSelectedPair#1 assert C20 valued-deferred-nomination-is-the-latest: pair.nominationValueOnBindingSuccess != nil && s.lastNomination != nil && *pair.nominationValueOnBindingSuccess == *s.lastNomination
+//@   site call setSelectedPair#2 assert C20 a-parked-plain-nomination-never-overrides-an-accepted-value: s.lastNomination == nil
 //@   site call setSelectedPair#2 assert C03 deferred-priority-guard: pair.nominationValueOnBindingSuccess == nil && (selectedPair == nil || (selectedPair != pair && (!(!s.agent.lite || s.agent.enableUseCandidateCheckPriority) || selectedPair.priority() <= pair.priority())))
 //@   ensures C02 unknown-transaction-changes-nothing-else: !s.agent.gTxOK ==> unchangedExcept("H_ice.Agent.gTxOK", "H_ice.Agent.gSymOK", "H_ice.Agent.pendingBindingRequests*", "H_ice.bindingRequest.*", "E_*")
 //@   ensures C02 asymmetric-changes-nothing-else: s.agent.gTxOK && !s.agent.gSymOK ==> unchangedExcept("H_ice.Agent.gTxOK", "H_ice.Agent.gSymOK", "H_ice.Agent.pendingBindingRequests*", "H_ice.bindingRequest.*", "E_*")
